@@ -94,8 +94,10 @@ def run(tier, seed):
         if len(plans) > budget:
             rng.shuffle(plans)
             lenops = [p for p in plans if p[1][0]["fault"]["op"] in ("trunc", "extend")]
-            rest = [p for p in plans if p[1][0]["fault"]["op"] not in ("trunc", "extend")]
-            plans = lenops[:budget // 3] + rest[:budget - min(len(lenops), budget // 3)]
+            rel = [p for p in plans if p[1][0]["fault"]["op"] == "add8"]
+            rest = [p for p in plans if p[1][0]["fault"]["op"] not in ("trunc", "extend", "add8")]
+            nl, nr = min(len(lenops), budget // 3), min(len(rel), budget // 5)
+            plans = lenops[:nl] + rel[:nr] + rest[:budget - nl - nr]
         # structured variants (Gen_Variants.tla): every defined value (and neighbours) of the enumerated fields, products
         # of the bitmap rectangle fields, update codes x flag bits - well-framed but unusual PDUs, in the active state and
         # in one handshake state
